@@ -47,6 +47,7 @@ def run(rep):
     suitetrace.validate_suite(rep, "C01", "DWT1DForward")
     suitetrace.validate_suite(rep, "C01", "DWTForward")
     dwtchecks.numeric_vs_pywt(rep, "C01", rep.tier)
+    dwtchecks.reuse_walk(rep, "C01", rep.tier, "forward")       # ONE module along a walk of sizes (what a module remembers between calls)
     helperchecks.helper_fidelity(rep, "C01", rep.tier)
     from .. import scalechecks
     scalechecks.dwt_forward(rep, "C01", rep.tier)          # one to two orders of magnitude larger inputs (size thresholds)
